@@ -359,7 +359,7 @@ Proof.
     + unfold text_micro. destruct (us =? 0); [constructor|]. constructor; [unfold noquote; lia|]. apply digits_noquote, pad0_digits; lia.
   - unfold text_date, text_clock. repeat (apply Forall_app; split); try nq1; try (apply digits_noquote, pad0_digits; lia).
     unfold text_micro. destruct (us =? 0); [constructor|]. constructor; [unfold noquote; lia|]. apply digits_noquote, pad0_digits; lia.
-  - cbn [wf_value] in *. boolprops.
+  - unfold wf_decimalb in *. boolprops.
     pose proof (digitsb_vals ip ltac:(assumption)) as Hi. pose proof (digitsb_vals fp ltac:(assumption)) as Hf.
     rewrite text_decimal_eq. repeat (apply Forall_app; split).
     + destruct neg; [nq1 | constructor].
@@ -441,7 +441,7 @@ Proof.
       apply text_clock_inj in Ec; try lia. destruct Ec as (-> & -> & -> & Ec).
       apply text_micro_inj in Ec; try lia. subst. split; [reflexivity|]. injection Es as Es. exact Es.
     + (* decimal *)
-      cbn [wf_type wf_value] in *. boolprops.
+      cbn [wf_type] in *. unfold wf_decimalb in *. boolprops.
       assert (Es' : digs p ++ 44 :: digs s ++ 41 :: 41 :: r1 = digs p0 ++ 44 :: digs s0 ++ 41 :: 41 :: r2).
       { do 8 (apply (f_equal (@tl Z)) in Es; cbn [tl] in Es).
         change (str "))") with [41; 41] in Es.
